@@ -399,6 +399,8 @@ impl State {
         self.status.set(IncrStatus::NotStabilising);
         #[cfg(cormacrelf_incremental_rs_verif)]
         crate::verif::ev("stab_end", &[]);
+        #[cfg(cormacrelf_incremental_rs_verif)]
+        crate::verif::env_snapshot(self);
     }
 
     pub(crate) fn is_stable(&self) -> bool {
